@@ -72,11 +72,11 @@ def run():
     jobs = [(i, cls, leaf, t, os.path.join(d, f"t{i:04d}.ndjson")) for i, (cls, leaf) in enumerate(todo)]
     # longest tasks first (deep leaves have more notations)
     jobs.sort(key=lambda j: -len(j[2].split(".")) - (2 if j[1] == "TriangularMesh" else 0))
-    stats = {"cases": 0, "steps": 0, "ops": {}, "notations": {}, "real_shows": 0}
+    stats = {"cases": 0, "steps": 0, "ops": {}, "notations": {}, "real_shows": 0, "render_errors": 0}
     def_leaves = set()
     with mp.Pool(16, initializer=_worker_init) as pool:
         for idx, cls, leaf, st in pool.imap_unordered(drv.run_task, jobs, chunksize=1):
-            for k in ("cases", "steps", "real_shows"):
+            for k in ("cases", "steps", "real_shows", "render_errors"):
                 stats[k] += st[k]
             for k in ("ops", "notations"):
                 for a, b in st[k].items():
@@ -146,6 +146,7 @@ def run():
     rep.set("steps_by_op", stats["ops"])
     rep.set("steps_by_notation", stats["notations"])
     rep.set("shows_through_magpylib_show", stats["real_shows"])
+    rep.set("shows_whose_drawing_failed_after_resolution", stats["render_errors"])
     details = find_steps(files_by_idx, [r[1] for r in rej]) if rej else {}
     for r in rej:
         _, tid, clause, prop, ctx = r[:5]
